@@ -101,11 +101,11 @@ Section EnumFacts.
   Proof. reflexivity. Qed.
 
   Lemma enum_from_list_many vs vconvs a b r :
-    enum_from_list vs vconvs (a :: b :: r) = Err (new_err (KTooManyItems 1)).
+    enum_from_list vs vconvs (a :: b :: r) = Err (with_span (i_span (ninfo b)) (new_err (KTooManyItems 1))).
   Proof. destruct a; reflexivity. Qed.
 
   Lemma enum_from_list_literal vs vconvs i l :
-    enum_from_list vs vconvs [NLit i l] = Err (unsupported_format "literal").
+    enum_from_list vs vconvs [NLit i l] = Err (with_span (i_span i) (unsupported_format "literal")).
   Proof. reflexivity. Qed.
 
   Definition item_name (it : nested) : string :=
